@@ -256,7 +256,7 @@ Proof.
   cbn [scan_loop negb]. rewrite Hne, Hc.
   rewrite (before_none _ _ Hsl), (contains_false_split _ _ Hop), (contains_false_split _ _ Hq).
   change ("" ++ l) with l. rewrite Hne.
-  destruct (negb (starts_with "#include" (trim_start l)) && negb asm); reflexivity.
+  destruct (negb (is_include_line l) && negb asm); reflexivity.
 Qed.
 
 (** * Splicing: a line without backslash is a logical line on its own *)
@@ -308,6 +308,70 @@ Lemma directive_parts_sp : forall d z,
     directive_parts (d ++ " " ++ z) = (d, if String.eqb (trim z) "" then None else Some (trim z)).
 Proof.
   intros d z Hsp Hsl. unfold directive_parts. rewrite (before_none _ _ Hsl), Hsp. reflexivity.
+Qed.
+
+(** the generic dispatch: '#', the letters of the name, a blank, the argument *)
+Lemma directive_name_arg_sp : forall h w z,
+    take_alpha (w ++ " " ++ z) = (w, " " ++ z) ->
+    contains "//" (String h w ++ " " ++ z) = false ->
+    directive_name_arg (String h w ++ " " ++ z)
+    = (String h w, if String.eqb (trim z) "" then None else Some (trim z)).
+Proof.
+  intros h w z Hta Hsl. unfold directive_name_arg. rewrite (before_none _ _ Hsl).
+  change (String h w ++ " " ++ z) with (String h (w ++ " " ++ z)). cbv beta iota zeta.
+  rewrite Hta. reflexivity.
+Qed.
+
+(** ** [hash_blanks] leaves alone the text without white space after its '#' *)
+Lemma trim_start_app_char : forall x c,
+    is_ws c = false -> trim_start (x ++ String c "") = trim_start x ++ String c "".
+Proof.
+  intros x c Hc. induction x as [|a x IHx].
+  - cbn [append trim_start]. rewrite Hc. reflexivity.
+  - cbn [append trim_start]. destruct (is_ws a); [exact IHx | reflexivity].
+Qed.
+
+Lemma trim_start_trim : forall l, exists w, trim_start l = trim l ++ w.
+Proof.
+  intros l. unfold trim, trim_end.
+  destruct (trim_start_decomp (rev_string (trim_start l))) as [w Hw].
+  exists (rev_string w). rewrite <- rev_string_app, <- Hw, rev_string_invol. reflexivity.
+Qed.
+
+Lemma hash_blanks_tight : forall l r,
+    trim_start l = String "#" r -> trim_start r = r -> hash_blanks l = l.
+Proof.
+  intros l r Hl Hr. unfold hash_blanks. rewrite Hl.
+  change (Ascii.eqb "#" "#") with true. cbv iota zeta. rewrite Hr, Nat.eqb_refl. reflexivity.
+Qed.
+
+Lemma hash_blanks_trim_tight : forall l x z,
+    trim l = String "#" (String x z) -> is_ws x = false -> hash_blanks l = l.
+Proof.
+  intros l x z Hl Hx. destruct (trim_start_trim l) as [w Hw]. rewrite Hl in Hw.
+  apply (hash_blanks_tight l (String x (z ++ w))); [exact Hw|].
+  cbn [trim_start]. rewrite Hx. reflexivity.
+Qed.
+
+Lemma hash_blanks_nohash : forall l, starts_with "#" (trim l) = false -> hash_blanks l = l.
+Proof.
+  intros l Hh. unfold hash_blanks.
+  destruct (trim_start l) as [|h rest] eqn:E; [reflexivity|].
+  destruct (Ascii.eqb h "#") eqn:Eh; [|reflexivity].
+  exfalso. apply Ascii.eqb_eq in Eh. subst h.
+  unfold trim, trim_end in Hh. rewrite E, rev_string_cons in Hh.
+  rewrite (trim_start_app_char _ "#" eq_refl), rev_string_app in Hh.
+  change (rev_string (String "#" "")) with (String "#" "") in Hh.
+  cbn [append starts_with] in Hh. rewrite Ascii.eqb_refl in Hh. discriminate.
+Qed.
+
+(** a directive line: the trimmed text is the directive word, alone or followed by a blank *)
+Lemma hash_blanks_directive : forall x d l,
+    is_ws x = false -> is_directive (String "#" (String x d)) (trim l) = true -> hash_blanks l = l.
+Proof.
+  intros x d l Hx Hd. apply is_directive_inv in Hd. destruct Hd as [Hd|[z Hd]].
+  - exact (hash_blanks_trim_tight l x d Hd Hx).
+  - exact (hash_blanks_trim_tight l x (d ++ " " ++ z) Hd Hx).
 Qed.
 
 Lemma not_active : forall st, st <> Active -> cstate_eqb st Active = false.
@@ -441,11 +505,12 @@ Section Steps.
   Variable inc : option (string * N).
   Variable asm : bool.
 
-  Ltac step_open Hc Hne Hq Hsl Hop :=
+  Ltac step_open Hc Hne Hq Hsl Hop Hhb :=
     unfold line_step; cbn [p_ctx c_scan];
     rewrite (scan_line_plain asm _ _ Hc Hne Hq Hsl Hop);
     unfold line_body, set_scan, set_state, emit;
-    cbn [negb p_ctx p_state p_stack p_out p_map c_macros c_scan].
+    cbn [negb p_ctx p_state p_stack p_out p_map c_macros c_scan];
+    rewrite !Hhb.
 
   (** ** an ordinary line: emitted when Active, dropped otherwise *)
   Lemma line_step_plain : forall ms sc o mp st stk line l,
@@ -463,7 +528,8 @@ Section Steps.
     apply negb_true_iff in Hh.
     destruct (one_line_inv l H1) as [Hnl Hne].
     destruct (text_ok_inv l Ht) as [Hq [Hsl [Hop Hbs]]].
-    step_open Hc Hne Hq Hsl Hop.
+    pose proof (hash_blanks_nohash l Hh) as Hhb.
+    step_open Hc Hne Hq Hsl Hop Hhb.
     assert (Ha : starts_with "#ifdef" (trim l) = false)
       by exact (starts_with_prefix_false "#" "ifdef" _ Hh).
     assert (Hb : starts_with "#ifndef" (trim l) = false)
@@ -493,14 +559,20 @@ Section Steps.
     destruct (text_ok_inv l Ht) as [Hq [Hsl [Hop Hbs]]].
     pose proof (contains_false_trim _ _ Hsl) as Hslt.
     pose proof (not_active st Hst) as Hna.
-    step_open Hc Hne Hq Hsl Hop.
+    assert (Hhb : hash_blanks l = l).
+    { pose proof Hd as Hd'.
+      apply orb_true_iff in Hd'; destruct Hd' as [Hd'|Hd'];
+        [apply orb_true_iff in Hd'; destruct Hd' as [Hd'|Hd'];
+         [apply orb_true_iff in Hd'; destruct Hd' as [Hd'|Hd']|]|];
+        (eapply hash_blanks_directive; [|exact Hd']; reflexivity). }
+    step_open Hc Hne Hq Hsl Hop Hhb.
     rewrite Hrep, Hna.
     apply orb_true_iff in Hd; destruct Hd as [Hd|Hd];
       [apply orb_true_iff in Hd; destruct Hd as [Hd|Hd];
        [apply orb_true_iff in Hd; destruct Hd as [Hd|Hd]|]|];
       apply is_directive_inv in Hd; destruct Hd as [Hd|[z Hd]]; rewrite Hd in *; try reflexivity.
-    - rewrite (directive_parts_sp "#include" z eq_refl Hslt). reflexivity.
-    - rewrite (directive_parts_sp "#error" z eq_refl Hslt). reflexivity.
+    - rewrite (directive_name_arg_sp "#" "include" z eq_refl Hslt). reflexivity.
+    - rewrite (directive_name_arg_sp "#" "error" z eq_refl Hslt). reflexivity.
   Qed.
 
   (** ** the directives of the conditional machine *)
@@ -515,10 +587,12 @@ Section Steps.
     intros sc o mp st stk line c b Hc Hok Hv.
     destruct (dir_line_facts "#if " c eq_refl eq_refl Hok)
       as [Hne Hq Hsl Hop Hbs Htrim Hslt Hct Hcne].
-    step_open Hc Hne Hq Hsl Hop.
+    assert (Hhb : hash_blanks ("#if " ++ c ++ nl) = "#if " ++ c ++ nl)
+      by (apply (hash_blanks_trim_tight _ "i"%char ("f " ++ c)); [exact Htrim|reflexivity]).
+    step_open Hc Hne Hq Hsl Hop Hhb.
     rewrite replace_all_c_nil, Htrim.
     change ("#if " ++ c) with ("#if" ++ " " ++ c).
-    rewrite (directive_parts_sp "#if" c eq_refl Hslt), Hct, Hcne.
+    rewrite (directive_name_arg_sp "#" "if" c eq_refl Hslt), Hct, Hcne.
     cbn [starts_with append Ascii.eqb Bool.eqb andb String.eqb].
     rewrite (cond_value_evaluate _ _ Hv). destruct (cstate_eqb st Active); reflexivity.
   Qed.
@@ -534,10 +608,12 @@ Section Steps.
     intros sc o mp st stk line c b Hc Hok Hv. unfold elif_line.
     destruct (dir_line_facts "#elif " c eq_refl eq_refl Hok)
       as [Hne Hq Hsl Hop Hbs Htrim Hslt Hct Hcne].
-    step_open Hc Hne Hq Hsl Hop.
+    assert (Hhb : hash_blanks ("#elif " ++ c ++ nl) = "#elif " ++ c ++ nl)
+      by (apply (hash_blanks_trim_tight _ "e"%char ("lif " ++ c)); [exact Htrim|reflexivity]).
+    step_open Hc Hne Hq Hsl Hop Hhb.
     rewrite replace_all_c_nil, Htrim.
     change ("#elif " ++ c) with ("#elif" ++ " " ++ c).
-    rewrite (directive_parts_sp "#elif" c eq_refl Hslt), Hct, Hcne.
+    rewrite (directive_name_arg_sp "#" "elif" c eq_refl Hslt), Hct, Hcne.
     cbn [starts_with append Ascii.eqb Bool.eqb andb String.eqb].
     rewrite (cond_value_evaluate _ _ Hv). destruct (cstate_eqb st Inactive); reflexivity.
   Qed.
@@ -555,7 +631,9 @@ Section Steps.
     intros ms sc o mp st stk line n Hc Hok.
     destruct (dir_line_facts "#ifdef " n eq_refl eq_refl Hok)
       as [Hne Hq Hsl Hop Hbs Htrim Hslt Hct Hcne].
-    step_open Hc Hne Hq Hsl Hop.
+    assert (Hhb : hash_blanks ("#ifdef " ++ n ++ nl) = "#ifdef " ++ n ++ nl)
+      by (apply (hash_blanks_trim_tight _ "i"%char ("fdef " ++ n)); [exact Htrim|reflexivity]).
+    step_open Hc Hne Hq Hsl Hop Hhb.
     rewrite Htrim.
     change ("#ifdef " ++ n) with ("#ifdef" ++ " " ++ n).
     rewrite (directive_parts_sp "#ifdef" n eq_refl Hslt), Hct, Hcne.
@@ -575,7 +653,9 @@ Section Steps.
     intros ms sc o mp st stk line n Hc Hok.
     destruct (dir_line_facts "#ifndef " n eq_refl eq_refl Hok)
       as [Hne Hq Hsl Hop Hbs Htrim Hslt Hct Hcne].
-    step_open Hc Hne Hq Hsl Hop.
+    assert (Hhb : hash_blanks ("#ifndef " ++ n ++ nl) = "#ifndef " ++ n ++ nl)
+      by (apply (hash_blanks_trim_tight _ "i"%char ("fndef " ++ n)); [exact Htrim|reflexivity]).
+    step_open Hc Hne Hq Hsl Hop Hhb.
     rewrite Htrim.
     change ("#ifndef " ++ n) with ("#ifndef" ++ " " ++ n).
     rewrite (directive_parts_sp "#ifndef" n eq_refl Hslt), Hct, Hcne.
@@ -1500,11 +1580,14 @@ Proof.
   destruct (one_line_inv l H1) as [Hnl Hne].
   destruct (text_ok_inv l Ht) as [Hq [Hsl [Hop Hbs]]].
   pose proof (not_active st Hst) as Hna.
+  assert (Hhb : hash_blanks l = l).
+  { pose proof Hd as Hd'. apply orb_true_iff in Hd'; destruct Hd' as [Hd'|Hd'];
+      (eapply hash_blanks_directive; [|exact Hd']; reflexivity). }
   unfold line_step; cbn [p_ctx c_scan];
     rewrite (scan_line_plain asm _ _ Hc Hne Hq Hsl Hop);
     unfold line_body, set_scan, set_state, emit;
     cbn [negb p_ctx p_state p_stack p_out p_map c_macros c_scan].
-  rewrite Hna.
+  rewrite !Hhb, Hna.
   apply orb_true_iff in Hd; destruct Hd as [Hd|Hd];
     apply is_directive_inv in Hd; destruct Hd as [Hd|[z Hd]]; rewrite Hd; reflexivity.
 Qed.
